@@ -109,13 +109,16 @@ def model_pipeline(res, known, tier, seed):
     """MC_Pipeline: the Level-2 transcription of the whole pipeline, as built and as designed;
     every behaviour is replayed on the real library and its trace validated."""
     thorough = tier == "thorough"
-    runs = [("pipeline_asbuilt", {"MaxLen": 3, "MaxSize": 4 if thorough else 3, "NAtoms": 2, "DevFinals": "TRUE"}),
-            ("pipeline_design", {"MaxLen": 3, "MaxSize": 3 if thorough else 2, "NAtoms": 2, "DevFinals": "FALSE"})]
+    runs = [("pipeline_asbuilt", {"MaxLen": 3, "MaxSize": 4 if thorough else 3, "NAtoms": 2, "DevFinals": "TRUE", "Sampled": "FALSE"}, None),
+            ("pipeline_design", {"MaxLen": 3, "MaxSize": 3 if thorough else 2, "NAtoms": 2, "DevFinals": "FALSE", "Sampled": "FALSE"}, None),
+            # beyond the exhaustive bounds: random inputs (tlc -simulate), every stage invariant on every state
+            ("pipeline_sampled", {"MaxLen": 4, "MaxSize": 6, "NAtoms": 3, "DevFinals": "TRUE", "Sampled": "TRUE"},
+             (3000 if thorough else 300, 12))]
     if thorough:
-        runs.append(("pipeline_abc", {"MaxLen": 2, "MaxSize": 3, "NAtoms": 3, "DevFinals": "TRUE"}))
+        runs.append(("pipeline_abc", {"MaxLen": 2, "MaxSize": 3, "NAtoms": 3, "DevFinals": "TRUE", "Sampled": "FALSE"}, None))
     plans = {}
-    for tag, consts in runs:
-        m = vlib.run_model("Pipeline", constants=consts, invariants=PIPE_INV, tag=tag)
+    for tag, consts, sim in runs:
+        m = vlib.run_model("Pipeline", constants=consts, invariants=PIPE_INV, tag=tag, simulate=sim, workers=(4 if sim else None))
         res.states += m["states"]
         res.transitions += m["transitions"]
         res.models.append({"model": "MC_Pipeline", "tag": tag, "constants": consts, "states": m["states"],
